@@ -4,8 +4,9 @@
    Model: Model/Diag.v (diagnostics_manager.go), Model/Events.v (handlers, HandleFileEventChanges, file index, error
    collection); the per-file analyses are the fields of `analysis` (any instance satisfying `analysis_ok`).
    Spec: Spec/FreshStart.v (`fresh_view`, `demanded`, `conformant`, the finding classes, `guard`).
-   `fixes` switches the repairs on: `deployed` (Model/Events.v) = the code as it is now (seven repairs), `round2` = without
-   the outside-file repair, `round1` = the code after round 1 (four repairs), `no_fix` = the code before any fix: commit.
+   `fixes` switches the repairs on: `deployed` (Model/Events.v) = the code as it is now (eight repairs), `round3` = without
+   the didOpen repair (fixes/C02-didopen-analysed.diff), `round2` = also without the outside-file repair, `round1` = the code
+   after round 1 (four repairs), `no_fix` = the code before any fix: commit.
    General theorems are quantified over all flag values. *)
 From Coq Require Import List NArith Bool Permutation.
 From LH Require Import Model.Diag Model.Events Spec.FreshStart.
@@ -19,7 +20,13 @@ Local Open Scope N_scope.
         another buffer is unsaved). `demanded` compares with a server freshly started on the current disk and told about
         the documents outside the workspace that are open (Spec/FreshStart.v fresh_view_open; C08_fresh_reopen ties it to
         the model's own server start followed by didOpen; with no such document open it is the plain start,
-        C08_incremental_eq_fresh_plain) ---- *)
+        C08_incremental_eq_fresh_plain).
+        `conformant` lets the client open a document with ANY text (action AOpenWith f t: an unsaved buffer restored by the
+        editor, a file changed behind its back): when t is not the file's text the document has unsaved edits from that
+        moment on (it is in `dirty`), so the statement says of it what it says of every unsaved edit - the client is shown
+        exactly the syntax errors of t if t has any, else the non-syntax diagnostics of the fresh start
+        (C08_open_text_view spells that instance out). The file must exist and the document must not be open already
+        (otherwise the action is a no-op of the editor model, as for AOpen) ---- *)
 Definition C08_full : Prop :=
   forall (A : analysis), analysis_ok A ->
   forall (dk : amap (text A)) (h : list (action A)),
@@ -46,7 +53,7 @@ Theorem C08_index_refines :
 Proof. exact index_refines. Qed.
 Print Assumptions C08_index_refines.
 
-(* ---- T1, the property for the code as it is now: EVERY conformant history (no class guard left: all seven finding
+(* ---- T1, the property for the code as it is now: EVERY conformant history (no class guard left: all eight finding
         classes are impossible under `deployed`), every file, with or without unsaved edits ---- *)
 Theorem C08_full_every_file :
   forall (A : analysis), analysis_ok A ->
@@ -115,9 +122,24 @@ Theorem C08_unsaved_view_deployed :
 Proof. exact (fun A HA dk h f Hc => unsaved_view A deployed HA dk h f (deployed_guard A dk h Hc)). Qed.
 Print Assumptions C08_unsaved_view_deployed.
 
+(* a document opened with a text t that is not the file's text d: it has unsaved edits, and the client is shown t's syntax
+   errors if there are any, else the non-syntax diagnostics of the fresh start (before the didOpen repair: the FILE's
+   diagnostics, syntax errors of the file included - C08_open_text_before_fix) *)
+Theorem C08_open_text_view :
+  forall (A : analysis), analysis_ok A ->
+  forall (dk : amap (text A)) (h : list (action A)) (f : file) (t d : text A),
+    conformant A deployed dk (h ++ [AOpenWith f t]) = true ->
+    aget (disk (fst (run A deployed dk h))) f = Some d -> aget (ebuf (fst (run A deployed dk h))) f = None ->
+    teqb A d t = false ->
+    let r := run A deployed dk (h ++ [AOpenWith f t]) in
+    In f (dirty (fst r)) /\
+    Permutation (view (snd r) f) (if is_nil (syn A t) then nonsyn (fresh_view_open A deployed (fst r) f) else syn A t).
+Proof. exact open_text_view. Qed.
+Print Assumptions C08_open_text_view.
+
 (* ---- T1, guarded, for every combination of repair flags: `guard` = editor discipline (`conformant`) and none of the
-        seven finding classes, each class only while its repair flag is off (outside_file has no flag). Watched-file
-        notifications may name several files. ---- *)
+        eight finding classes, each class only while its repair flag is off. Watched-file notifications may name several
+        files. ---- *)
 (* every file, whether or not it has unsaved edits, shows what the property demands (up to order) *)
 Theorem C08_guarded :
   forall (A : analysis) (fx : fixes), analysis_ok A ->
@@ -127,17 +149,31 @@ Theorem C08_guarded :
 Proof. exact guarded_view. Qed.
 Print Assumptions C08_guarded.
 
-(* the instance for the code without the outside-file repair: the guard excludes outside_file only; the other six classes
-   are constantly false (C08_repaired_classes_gone) *)
+(* the instance for the code without the outside-file and didOpen repairs: the guard excludes outside_file and open_text
+   (documents are opened with the file's text) only; the other six classes are constantly false (C08_repaired_classes_gone) *)
 Theorem C08_guarded_round2 :
   forall (A : analysis), analysis_ok A ->
   forall (dk : amap (text A)) (h : list (action A)),
-    conformant A round2 dk h = true -> inside_only A h = true ->
+    conformant A round2 dk h = true -> inside_only A h = true -> opens_disk_text A h = true ->
     forall f, Permutation (view (snd (run A round2 dk h)) f) (demanded A round2 (fst (run A round2 dk h)) f).
 Proof.
-  exact (fun A HA dk h Hc Hi => guarded_view A round2 HA dk h (repaired_guard A round2 dk h eq_refl (or_intror Hi) Hc)).
+  exact (fun A HA dk h Hc Hi Ho =>
+           guarded_view A round2 HA dk h (repaired_guard A round2 dk h eq_refl (or_intror Hi) (or_intror Ho) Hc)).
 Qed.
 Print Assumptions C08_guarded_round2.
+
+(* the instance for the code without the didOpen repair (the full statement of the round before): documents are opened
+   with the file's text *)
+Theorem C08_guarded_round3 :
+  forall (A : analysis), analysis_ok A ->
+  forall (dk : amap (text A)) (h : list (action A)),
+    conformant A round3 dk h = true -> opens_disk_text A h = true ->
+    forall f, Permutation (view (snd (run A round3 dk h)) f) (demanded A round3 (fst (run A round3 dk h)) f).
+Proof.
+  exact (fun A HA dk h Hc Ho =>
+           guarded_view A round3 HA dk h (repaired_guard A round3 dk h eq_refl (or_introl eq_refl) (or_intror Ho) Hc)).
+Qed.
+Print Assumptions C08_guarded_round3.
 
 (* no document has unsaved edits  =>  the client holds what a fresh start on the current files publishes *)
 Theorem C08_incremental_eq_fresh :
@@ -187,6 +223,7 @@ Definition refutes (fx : fixes) (k : N) (dk : amap (list stmt)) (h : list (actio
   ~ Permutation (view (snd (run toyA fx dk h)) f) (demanded toyA fx (fst (run toyA fx dk h)) f).
 
 Local Notation AChange := (@AChange toyA).
+Local Notation AOpenWith := (@AOpenWith toyA).
 Local Notation WC := (@WC toyA).
 Local Notation WM := (@WM toyA).
 
@@ -207,7 +244,43 @@ Theorem C08_index_refines_repaired :
 Proof. vm_compute. reflexivity. Qed.
 Print Assumptions C08_index_refines_repaired.
 
-(* ---- repaired last (fixes/C08-outside-file.diff): a document outside the workspace joins and leaves the project like any
+(* ---- repaired last (fixes/C02-didopen-analysed.diff; C02's finding open_text_not_disk seen from the diagnostics): the text
+        carried by didOpen is analysed. a.lua on disk is `g1 = 1`; the editor restores an unsaved buffer `g2 = 1` `)` for it:
+        the client is shown the buffer's syntax error at once (before the repair: nothing, until the first didChange);
+        then the buffer is repaired, saved and closed ---- *)
+Definition w_open_text_dk : amap (list stmt) := [(0, [SD 1]); (1, [SU 2])].
+Definition w_open_text : list (action toyA) := [AOpenWith 0 [SD 2; SS]; AChange 0 [SD 2]; ASave 0; AClose 0].
+Theorem C08_open_text_repaired : toy_meets deployed w_open_text_dk w_open_text.
+Proof. repaired. Qed.
+Print Assumptions C08_open_text_repaired.
+Example C08_open_text_before_fix : refutes round3 8 w_open_text_dk (firstn 1 w_open_text) 0.
+Proof. refute. Qed.
+Example C08_open_text_views :
+  view (snd (run toyA deployed w_open_text_dk (firstn 1 w_open_text))) 0 = [(1, 1, 0)] /\
+  dirty (fst (run toyA deployed w_open_text_dk (firstn 1 w_open_text))) = [0] /\
+  view (snd (run toyA round3 w_open_text_dk (firstn 1 w_open_text))) 0 = [] /\
+  view (snd (run toyA deployed w_open_text_dk [])) 1 = [(2, 0, 2)] /\
+  view (snd (run toyA deployed w_open_text_dk (firstn 2 w_open_text))) 1 = [(2, 0, 2)] /\
+  view (snd (run toyA deployed w_open_text_dk w_open_text)) 1 = [] /\
+  dirty (fst (run toyA deployed w_open_text_dk w_open_text)) = [].
+Proof. vm_compute. auto 10. Qed.
+(* opened with a CLEAN text over a broken file: the file's syntax error is hidden at once, its other diagnostics stay *)
+Definition w_open_text2_dk : amap (list stmt) := [(0, [SL; SS])].
+Definition w_open_text2 : list (action toyA) := [AOpenWith 0 [SL]].
+Theorem C08_open_text_clean_repaired :
+  toy_meets deployed w_open_text2_dk w_open_text2 /\
+  view (snd (run toyA deployed w_open_text2_dk [])) 0 = [(1, 1, 0); (4, 0, 0)] /\
+  view (snd (run toyA deployed w_open_text2_dk w_open_text2)) 0 = [(4, 0, 0)].
+Proof. split; [repaired|vm_compute; auto]. Qed.
+Print Assumptions C08_open_text_clean_repaired.
+Example C08_open_text_clean_before_fix : refutes round3 8 w_open_text2_dk w_open_text2 0.
+Proof. refute. Qed.
+(* opened with the file's own text through the same action: nothing is analysed, no unsaved edit *)
+Example C08_open_text_same :
+  run toyA deployed w_open_text_dk [AOpenWith 0 [SD 1]] = run toyA deployed w_open_text_dk [AOpen 0].
+Proof. vm_compute. reflexivity. Qed.
+
+(* ---- repaired before (fixes/C08-outside-file.diff): a document outside the workspace joins and leaves the project like any
         other file ---- *)
 (* a file outside the workspace (p) is opened and closed again: while it is open its global is seen (as after a fresh
    start followed by didOpen p), after didClose a's warning is back *)
@@ -275,7 +348,7 @@ Print Assumptions C08_empty_shortcut_repaired.
 Example C08_empty_shortcut_before_fix : refutes no_fix 7 w_empty_shortcut_dk w_empty_shortcut 0.
 Proof. refute. Qed.
 
-(* under `deployed` none of the seven classes occurs: their predicates are constantly false *)
+(* under `deployed` none of the eight classes occurs: their predicates are constantly false *)
 Theorem C08_repaired_classes_gone :
   forall (A : analysis) (w w' : world A) (a : action A),
     k_live_cleared A deployed w w' = false /\ k_close_revert A deployed w a = false /\
@@ -283,6 +356,8 @@ Theorem C08_repaired_classes_gone :
     k_watched_dirty A deployed w a = false /\ k_stale_ref A deployed w' = false.
 Proof. exact (fun A w w' a => repaired_classes_gone A deployed w w' a eq_refl). Qed.
 Theorem C08_outside_class_gone : forall (A : analysis) (a : action A), k_outside A deployed a = false.
+Proof. reflexivity. Qed.
+Theorem C08_open_text_class_gone : forall (A : analysis) (w : world A) (a : action A), k_open_text A deployed w a = false.
 Proof. reflexivity. Qed.
 Print Assumptions C08_repaired_classes_gone.
 
